@@ -129,4 +129,145 @@ Section Flush.
       + destruct (Step Ok s1 H1) as [_ [A B]]; [discriminate|]. eapply IH; eauto.
       + destruct (Step r s' H1 Hr) as [A _]. congruence.
   Qed.
+
+  Definition rho0 (s : sess) (x : nat) : option Z := if oin (objs s x) then okey (objs s x) else None.
+  Definition rv0 (s : sess) (x : nat) : Z :=
+    match okey (objs s x) with Some k => match W0 k with Some v => v | None => 0%Z end | None => 0%Z end.
+
+  Lemma sig_init : forall s, SigL s0 g f s -> work s = W0 ->
+    Sig s0 g f (stmts_of s new dirty deleted) s (rho0 s) (rv0 s).
+  Proof.
+    intros s L Hw. pose proof (sl_good _ _ _ _ L) as G. pose proof (sl_j _ _ _ _ L) as Jh.
+    assert (Hle := sl_le _ _ _ _ L).
+    assert (Hrv : forall x k v, okey (objs s x) = Some k -> W0 k = Some v -> rv0 s x = v).
+    { intros x k v Hk Hv. unfold rv0. rewrite Hk, Hv. reflexivity. }
+    assert (Hrho : forall x p, rho0 s x = Some p -> oin (objs s x) = true /\ okey (objs s x) = Some p).
+    { intros x p H. unfold rho0 in H. destruct (oin (objs s x)); [auto|discriminate]. }
+    constructor; auto.
+    - intros x p H. destruct (Hrho x p H) as [A B].
+      destruct (g_rows _ _ _ _ _ G x p A B) as [v [Hv _]]. rewrite Hw. rewrite (Hrv x p v B Hv). exact Hv.
+    - intros x y p Hx Hy. destruct (Hrho x p Hx) as [A B]. destruct (Hrho y p Hy) as [C D].
+      eapply (g_uniq _ _ _ _ _ G); eauto.
+    - intros p Hp.
+      destruct (find (fun x => oin (objs s x) && key_is p (objs s x)) (seq 0 n)) as [x|] eqn:Ef.
+      + left. apply find_some in Ef. destruct Ef as [_ Ef]. apply andb_prop in Ef. destruct Ef as [E1 E2].
+        exists x. unfold rho0. rewrite E1. unfold key_is in E2. destruct (okey (objs s x)) as [k|]; [|discriminate].
+        apply Z.eqb_eq in E2. congruence.
+      + right. split; [rewrite Hw; reflexivity|]. intros x Hx Hk.
+        destruct (Hle x) as [Q1 [_ [_ [Q4 _]]]].
+        assert (Hx' : oin (objs s x) = true) by congruence.
+        destruct (g_in _ _ _ _ _ G x Hx') as [Hn _].
+        eapply find_none with (x := x) in Ef; [|apply in_seq; lia].
+        rewrite Hx' in Ef. unfold key_is in Ef. rewrite Q1, Hk in Ef. rewrite Z.eqb_refl in Ef. discriminate.
+    - intros o Ho.
+      assert (Hin : oin (objs s o) = true).
+      { destruct (Hle o) as [_ [_ [_ [Q4 _]]]]. rewrite Q4.
+        destruct (stmts_of_in s new dirty deleted o) as [S1 [_ S3]].
+        destruct Ho as [Ho|Ho].
+        - apply S1 in Ho. apply Hdirty in Ho. tauto.
+        - apply S3 in Ho. apply (g_del _ _ _ _ _ G0). exact Ho. }
+      split; auto. destruct (g_in _ _ _ _ _ G o Hin) as [_ [_ [_ Hk]]].
+      destruct (okey (objs s o)) as [k|] eqn:Ek; [|congruence]. exists k.
+      destruct (g_rows _ _ _ _ _ G o k Hin Ek) as [v [Hv _]].
+      repeat split; auto.
+      + unfold rho0. rewrite Hin. exact Ek.
+      + rewrite (Hrv o k v Ek Hv). exact Hv.
+    - intros o Ho. destruct (stmts_of_in s new dirty deleted o) as [_ [S2 _]]. apply S2 in Ho.
+      split; auto. unfold rho0.
+      apply (g_new _ _ _ _ _ G) in Ho. destruct Ho as [_ [Hk _]].
+      destruct (oin (objs s o)) eqn:E; auto.
+    - intros x p H. destruct (Hrho x p H) as [A B].
+      destruct (g_in _ _ _ _ _ G x A) as [Hn _].
+      destruct (stmts_of_in s new dirty deleted x) as [S1 [_ S3]].
+      destruct (omod (objs s x)) eqn:Em.
+      + destruct (mem x deleted) eqn:Ed.
+        * right; left. apply S3. apply mem_In. exact Ed.
+        * left. apply S1. apply Hdirty. destruct (Hle x) as [_ [_ [_ [Q4 [Q5 _]]]]].
+          split; [exact Hn|]. split; [congruence|]. split; [congruence|].
+          intros X. apply mem_In in X. congruence.
+      + right; right. destruct (g_rows _ _ _ _ _ G x p A B) as [v [Hv [V1 [_ [V3 _]]]]].
+        destruct (Jh x Hn) as [_ [_ J3]]. destruct (J3 Em) as [C1 C2].
+        rewrite (Hrv x p v B Hv). auto.
+    - intros x H. destruct (rho0 s x) as [p|] eqn:E; [|congruence]. destruct (Hrho x p E) as [A B].
+      destruct (g_in _ _ _ _ _ G x A) as [Hn _]. auto.
+  Qed.
 End Flush.
+
+(* ------------------------------------------------------------------ finalize_flush_changes *)
+(* a fold whose step changes one object by a function of that object alone *)
+Lemma fold_objs_pointwise : forall (step : nat -> sess -> sess) (F : nat -> obj -> obj),
+  (forall o s x, x <> o -> objs (step o s) x = objs s x) ->
+  (forall o s, objs (step o s) o = F o (objs s o)) ->
+  forall l s, NoDup l ->
+  forall x, objs (fold_left (fun s o => step o s) l s) x = if mem x l then F x (objs s x) else objs s x.
+Proof.
+  intros step F H1 H2. induction l as [|o l IH]; intros s Hnd x; cbn [fold_left]; auto.
+  inversion Hnd; subst. rewrite IH by auto. cbn [mem existsb]. fold (mem x l).
+  destruct (Nat.eqb_spec x o).
+  - subst. cbn. destruct (mem o l) eqn:E; [apply mem_In in E; contradiction|]. apply H2.
+  - cbn. rewrite H1 by auto. reflexivity.
+Qed.
+
+Lemma rnd_objs : forall o s x, objs (remove_newly_deleted o s) x =
+  if Nat.eqb x o then o_delf (o_in (objs s o) false) true else objs s x.
+Proof.
+  intros o s x. unfold remove_newly_deleted.
+  match goal with |- objs (mod_obj ?s1 o ?g) x = _ => set (S1 := s1) end.
+  assert (E : forall y, objs S1 y = if Nat.eqb y o then o_in (objs s o) false else objs s y).
+  { intros y. unfold S1. cbn [objs set_sdel]. unfold safe_discard.
+    destruct (upd_head_fields s (fun f => f_del f (addm o (fdel f)))) as [X _].
+    destruct (Nat.eqb_spec y o).
+    - subst. rewrite objs_mod_same. rewrite X. reflexivity.
+    - rewrite objs_mod_other by auto. rewrite X. reflexivity. }
+  destruct (Nat.eqb_spec x o).
+  - subst. rewrite objs_mod_same. rewrite E. rewrite Nat.eqb_refl. reflexivity.
+  - rewrite objs_mod_other by auto. rewrite E. destruct (Nat.eqb_spec x o); [contradiction|reflexivity].
+Qed.
+
+Lemma rnd_rest : forall o s f0 rest, stack s = f0 :: rest ->
+  stack (remove_newly_deleted o s) = f_del f0 (addm o (fdel f0)) :: rest /\
+  sdel (remove_newly_deleted o s) = remm o (sdel s) /\ snew (remove_newly_deleted o s) = snew s /\
+  nobj (remove_newly_deleted o s) = nobj s /\ work (remove_newly_deleted o s) = work s /\
+  committed (remove_newly_deleted o s) = committed s /\ saves (remove_newly_deleted o s) = saves s /\
+  nfid (remove_newly_deleted o s) = nfid s /\ eoc (remove_newly_deleted o s) = eoc s /\
+  handles (remove_newly_deleted o s) = handles s.
+Proof.
+  intros o s f0 rest Hs. unfold remove_newly_deleted, safe_discard.
+  destruct (upd_head_fields s (fun f => f_del f (addm o (fdel f)))) as [X0 [X1 [X2 [X3 [X4 [X5 [X6 [X7 [X8 [X9 X10]]]]]]]]]].
+  cbn. rewrite X1, X2, X3, X4, X5, X6, X7, X8, X9, X10, Hs. repeat split; reflexivity.
+Qed.
+
+Lemma filter_remm_cons : forall o l r,
+  filter (fun x => negb (mem x l)) (remm o r) = filter (fun x => negb (mem x (o :: l))) r.
+Proof.
+  intros o l r. unfold remm. induction r as [|a r IH]; [reflexivity|].
+  cbn [filter]. assert (E : mem a (o :: l) = Nat.eqb a o || mem a l) by reflexivity. rewrite E.
+  destruct (Nat.eqb_spec o a).
+  - subst. rewrite Nat.eqb_refl. cbn. exact IH.
+  - destruct (Nat.eqb_spec a o); [congruence|]. cbn [negb orb filter].
+    destruct (mem a l); cbn; [exact IH|f_equal; exact IH].
+Qed.
+
+Lemma rnd_fold : forall l s f0 rest, stack s = f0 :: rest -> NoDup l ->
+  let s' := fold_left (fun s o => remove_newly_deleted o s) l s in
+  (forall x, objs s' x = if mem x l then o_delf (o_in (objs s x) false) true else objs s x) /\
+  stack s' = f_del f0 (fold_left (fun d o => addm o d) l (fdel f0)) :: rest /\
+  sdel s' = filter (fun x => negb (mem x l)) (sdel s) /\ snew s' = snew s /\
+  nobj s' = nobj s /\ work s' = work s /\ committed s' = committed s /\ saves s' = saves s /\
+  nfid s' = nfid s /\ eoc s' = eoc s /\ handles s' = handles s.
+Proof.
+  induction l as [|o l IH]; intros s f0 rest Hs Hnd; cbn [fold_left].
+  - assert (X : forall l0 : list nat, l0 = filter (fun x => negb (mem x [])) l0).
+    { induction l0 as [|a r IHr]; cbn; auto. f_equal. exact IHr. }
+    repeat split; auto; try apply X. rewrite Hs; destruct f0; reflexivity.
+  - inversion Hnd; subst.
+    destruct (rnd_rest o s f0 rest Hs) as [A0 [A1 [A2 [A3 [A4 [A5 [A6 [A7 [A8 A9]]]]]]]]].
+    destruct (IH (remove_newly_deleted o s) _ rest A0 H2) as [B0 [B1 [B2 [B3 [B4 [B5 [B6 [B7 [B8 [B9 B10]]]]]]]]]].
+    split; [|split; [|split; [|repeat split; congruence]]].
+    + intros x. rewrite B0, rnd_objs. cbn [mem existsb]. fold (mem x l).
+      destruct (Nat.eqb_spec x o); cbn [orb].
+      * subst. destruct (mem o l) eqn:E; [apply mem_In in E; contradiction|]. reflexivity.
+      * reflexivity.
+    + rewrite B1. reflexivity.
+    + rewrite B2, A1. apply filter_remm_cons.
+Qed.
